@@ -418,6 +418,9 @@ func (v *Verifier) VerifyFunc(pkg *ssa.Package, c *Contract, pool *Pool) (res *F
 			defer func() {
 				if r := recover(); r != nil {
 					if u, ok := r.(unsupported); ok {
+						if os.Getenv("GCV_PANIC") == "unsup" {
+							panic(r)
+						}
 						res.Status = "outside-subset"
 						res.Reason = u.msg
 						return
